@@ -59,7 +59,7 @@ Explains(r) ==
                                                                \* no supplementary code point the text does not hold
 
 \* the writer of CanonJSON.tla is not used here: its variables are frozen
-Frozen == scen = 0 /\ todo = <<>> /\ text = <<>> /\ status = "valid" /\ bud = 0 /\ cor = "none" /\ phase = "done"
+Frozen == scen = 0 /\ todo = <<>> /\ text = <<>> /\ status = "valid" /\ bud = 0 /\ cor = "none" /\ nums = <<>> /\ phase = "done"
 TInit == l = 1 /\ bad = <<>> /\ Frozen
 
 \* One step per logged call.  A line the specification does not explain is recorded (so the rest of the
@@ -90,5 +90,6 @@ Explain ==
                           alt  |-> IF val /\ CanonAlt(p.v) # Canon(p.v) THEN CanonAlt(p.v) \o <<>> ELSE <<>>,
                           bad  |-> IF val THEN InadmissibleLits(p.v) ELSE <<>>,
                           nz   |-> val /\ HasNegZeroLit(p.v),
+                          look |-> IF val THEN LooksOf(p.v) ELSE <<>>,
                           ast  |-> IF st \in {"illformed", "dupkeys"} THEN AstralOf(p.v) \o <<>> ELSE <<>>]))
 =============================================================================
